@@ -291,7 +291,7 @@ func runC05(p *an.Prog, r *an.Run, tier string) {
 			for _, fn := range p.Repo {
 				an.AllInstrs(fn, func(in ssa.Instruction) {
 					if st, ok := in.(*ssa.Store); ok {
-						if fv := an.FieldOf(st.Addr); fv != nil && fv.Name() == "nonceExpire" {
+						if fv := an.FieldOf(st.Addr); fv != nil && an.Ident(fv.Name()) == "nonceExpire" {
 							nst++
 							if k, ok := an.ConstInt(st.Val); !ok || k != window {
 								bad = append(bad, "badgerStore.nonceExpire is set at "+p.Pos(st.Pos())+" to something other than store.ExpireNonce")
